@@ -1,7 +1,122 @@
 import Rare.Base.Proto
+import Rare.Model.C06
+/-!
+Line protocol of C06.
+
+* `run <gunzip> <recursive> <readers> <batch> <mode> <args> <fs> <files> <stdin>` – a whole CLI run
+  (`mode` = `all` | `byte:<n>` | `histo`); answer: exit status, counters, canonical log lines, stdout multiset.
+* `glob <recursive> <args> <fs>` – what `dirwalk.GlobExpand` sends.
+* `open <gunzip> <names> <files>` – `batchers.OpenFilesToChan` over the names: error count and lines.
+* `exit <readErrors> <hasAgg> <parseErrors> <matched>` – `DetermineErrorState`.
+
+`<fs>`: `.` or `,`-joined `hexarg:isDir:walk-hexlist:b|f:glob-hexlist`;
+`<files>`: `.` or `,`-joined `hexpath:canOpen:isDir:hexcontent:hdrOk:probed:hexdecoded:fails`.
+Paths missing from `<files>` do not exist.
+-/
 namespace Rare.Drv.C06
+open Rare Rare.C06 Rare.Proto
+
+def bool? (s : String) : Option Bool :=
+  if s = "1" then some true else if s = "0" then some false else none
+
+structure FsEnt where
+  arg : Path
+  isDir : Bool
+  walk : List Path
+  glob : GlobRes
+
+def parseFsEnt (s : String) : Option FsEnt :=
+  match s.splitOn ":" with
+  | [a, d, w, t, g] => do
+    let a ← Hex.dec a
+    let d ← bool? d
+    let w ← decHexList w
+    let g ← decHexList g
+    let res ← if t = "b" then some GlobRes.badPattern else if t = "f" then some (GlobRes.found g) else none
+    pure ⟨a, d, w, res⟩
+  | _ => none
+
+def parseFs (s : String) : Option (List FsEnt) :=
+  if s = "." then some [] else (s.splitOn ",").mapM parseFsEnt
+
+def mkFs (ents : List FsEnt) : FsOracle :=
+  let find (p : Path) : Option FsEnt := ents.find? (fun e => e.arg == p)
+  { isDir := fun p => match find p with | some e => e.isDir | none => false,
+    walk := fun p => match find p with | some e => e.walk | none => [],
+    glob := fun p => match find p with | some e => e.glob | none => .found [] }
+
+def parseFile (s : String) : Option (Path × FileOracle) :=
+  match s.splitOn ":" with
+  | [p, o, d, c, h, pr, dec, fl] => do
+    let p ← Hex.dec p
+    let o ← bool? o
+    let d ← bool? d
+    let c ← Hex.dec c
+    let h ← bool? h
+    let pr ← nat? pr
+    let dec ← Hex.dec dec
+    let fl ← bool? fl
+    pure (p, ⟨o, d, c, h, pr, dec, fl⟩)
+  | _ => none
+
+def parseFiles (s : String) : Option (List (Path × FileOracle)) :=
+  if s = "." then some [] else (s.splitOn ",").mapM parseFile
+
+def mkFiles (l : List (Path × FileOracle)) (p : Path) : FileOracle :=
+  match l.find? (fun e => e.1 == p) with
+  | some e => e.2
+  | none => FileOracle.missing
+
+def parseMode (s : String) : Option Mode :=
+  if s = "all" then some .all
+  else if s = "histo" then some .histo
+  else match s.splitOn ":" with
+    | ["byte", n] => (nat? n).map fun n => Mode.hasByte (UInt8.ofNat n)
+    | _ => none
+
+def logStr : Log → String
+  | .pathError p => s!"patherr:{Hex.enc p}"
+  | .openError p => s!"openerr:{Hex.enc p}"
+  | .gunzipFallback p => s!"gunzipfallback:{Hex.enc p}"
+  | .readError p => s!"readerr:{Hex.enc p}"
+  | .usage n => s!"usage:{n}"
+  | .final m => s!"final:{Hex.enc (ascii m)}"
+
+def sortStrs (l : List String) : List String := l.mergeSort (fun a b => decide (a ≤ b))
+
+def joinOrDot (sep : String) (l : List String) : String :=
+  if l.isEmpty then "." else sep.intercalate l
 
 def handle : List String → String
+  | ["run", gz, rec, readers, batch, mode, args, fs, files, stdin] =>
+    match bool? gz, bool? rec, int? readers, int? batch, parseMode mode, decHexList args, parseFs fs,
+          parseFiles files, Hex.dec stdin with
+    | some gz, some rec, some readers, some batch, some mode, some args, some fs, some files, some stdin =>
+      let r := run ⟨gz, rec, readers, batch, mode⟩ args (mkFs fs) (mkFiles files) stdin
+      let logs := joinOrDot "," (sortStrs (r.logs.map logStr))
+      let out := joinOrDot ";" (sortStrs (r.out.map Hex.enc))
+      s!"ok exit={r.exit} errs={r.readErrors} read={r.readLines} matched={r.matched} logs={logs} out={out}"
+    | _, _, _, _, _, _, _, _, _ => "bad-args"
+  | ["glob", rec, args, fs] =>
+    match bool? rec, decHexList args, parseFs fs with
+    | some rec, some args, some fs =>
+      let bad := (args.filter (expandArgBad (mkFs fs) rec)).length
+      s!"ok bad={bad} {hexList (planFiles (mkFs fs) rec args)}"
+    | _, _, _ => "bad-args"
+  | ["open", gz, names, files] =>
+    match bool? gz, decHexList names, parseFiles files with
+    | some gz, some names, some files =>
+      let srcs := names.map fun p => runFile gz p (mkFiles files p)
+      let errs := (srcs.map (·.errs)).sum
+      let out := joinOrDot ";" (sortStrs ((srcs.flatMap (outLines .all)).map Hex.enc))
+      s!"ok errs={errs} out={out}"
+    | _, _, _ => "bad-args"
+  | ["exit", re, hasAgg, pe, m] =>
+    match nat? re, bool? hasAgg, nat? pe, nat? m with
+    | some re, some hasAgg, some pe, some m =>
+      let (c, msg) := exitCode re (if hasAgg then some pe else none) m
+      s!"ok {c} {Hex.enc (ascii msg)}"
+    | _, _, _, _ => "bad-args"
   | _ => "bad-op"
 
 end Rare.Drv.C06
